@@ -92,6 +92,17 @@ class Unguarded:
 
     def __init__(self, F, P, VE, unknown_regions):
         self.F, self.P, self.VE, self.regs = F, P, VE, unknown_regions
+        # renderings of calls (on this) to accessors that return exactly the flag
+        self.flag_getters = set()
+        for g in F.fns.values():
+            if g.get("cls") == NIF and not g.get("params"):
+                b = g.get("body")
+                if is_node(b) and b["k"] == "Compound" and len(b["body"]) == 1 and b["body"][0]["k"] == "Return":
+                    r = b["body"][0].get("e")
+                    while is_node(r) and r["k"] == "Cast":
+                        r = r["e"]
+                    if is_node(r) and r["k"] == "Member" and r.get("name") == "hasUnknown" and r.get("owner") == NIF:
+                        self.flag_getters.add(g["short"] + "()")
         self.memo = {}
         self.active = set()
 
@@ -110,6 +121,11 @@ class Unguarded:
             if f[1] == "hasUnknown" and ("m", "hasUnknown") in f[3] and fn.get("cls") == NIF:
                 if f[2] is False:
                     return "hasUnknown==false"
+                continue
+            if f[1] in self.flag_getters and fn.get("cls") == NIF:
+                # `if (HasUnknown()) return;` — a trivial accessor of the flag, called on this
+                if f[2] is False:
+                    return "hasUnknown==false (through %s)" % f[1]
                 continue
             if f[1] in bool_params and ("n", f[1]) in f[3]:
                 param_guard = ("param", bool_params[f[1]], f[2])
